@@ -29,6 +29,8 @@ def h_conform(m, ctx, nlines, menu_name, trailing=True, first_pass=False, mix_le
             'cmd_results': [(code, syms_of(o)) for _, code, o in se.cmd_results], 'trailing': trailing,
             'source_shown': show_bytes(source)}
     ctx.notes['lines'] = desc
+    ctx.notes['native_check'] = {'kind': 'pp', 'data': {k: data[k] for k in ('source', 'inc', 'cmd_results', 'trailing')}, 'ok': impl_ok,
+                                 'out': syms_of(out) if (impl_ok and out is not None) else None}
     try:
         spec = specpp.process(ctx, source, se, trailing)
     except SpecMismatch as e:
@@ -57,6 +59,10 @@ def h_conform(m, ctx, nlines, menu_name, trailing=True, first_pass=False, mix_le
 
 
 H = 'props.c01'
+
+
+def validate_samples(native, samples):
+    return ppreplay.validate_pp_samples(native, samples)
 
 
 def jobs(tier):
